@@ -53,6 +53,42 @@ type c05Case struct {
 // set, raw is a corruption of a fingerprinted message and must not pass while
 // FINGERPRINT is its only such attribute.
 func c05Verify(m *stun.Message, raw []byte, corrupted bool) (outcome, key, detail string) {
+	outcome, key, detail = c05Verify1(m, raw, corrupted)
+	if key != "" || outcome == "undecodable" || len(raw) < 20 {
+		return
+	}
+	// the same Message then receives shorter messages (the read loop of a client reuses one Message): the header
+	// alone, and the header with the first attribute; what the longer message left behind must not be checked
+	hdr := append([]byte(nil), raw[:20]...)
+	hdr[2], hdr[3] = 0, 0
+	shorter := [][]byte{hdr}
+	if pm, _ := ref.Parse(raw); pm != nil && len(pm.Attrs) >= 2 {
+		end := pm.Attrs[1].Off - 4
+		one := append([]byte(nil), raw[:end]...)
+		one[2], one[3] = byte((end-20)>>8), byte(end-20)
+		shorter = append(shorter, one)
+	}
+	for _, s := range shorter {
+		if _, k2, d2 := c05Verify1(m, s, false); k2 != "" {
+			return "", k2 + "/shorter-message-in-reused-Message", "after the Message held a longer message: " + d2
+		}
+		// worst case for anything left behind: the Message first holds s plus a FINGERPRINT attribute carrying
+		// exactly the value the checker computes over s (a peer that sends both datagrams controls it)
+		v := ref.Fingerprint(s[:len(s)-8])
+		prev := append(append([]byte(nil), s...), 0x80, 0x28, 0, 4, byte(v>>24), byte(v>>16), byte(v>>8), byte(v))
+		prev[2], prev[3] = byte((len(prev)-20)>>8), byte(len(prev)-20)
+		m.Raw = append(m.Raw[:0], prev...)
+		if m.Decode() != nil {
+			continue
+		}
+		if _, k2, d2 := c05Verify1(m, s, false); k2 != "" {
+			return "", k2 + "/shorter-message-in-reused-Message", fmt.Sprintf("after the Message held %x: %s", clip(prev), d2)
+		}
+	}
+	return
+}
+
+func c05Verify1(m *stun.Message, raw []byte, corrupted bool) (outcome, key, detail string) {
 	want, nFP, dec := refFingerprint(raw)
 	m.Raw = append(m.Raw[:0], raw...)
 	derr := m.Decode()
